@@ -86,6 +86,8 @@ var opNames = []string{
 	"j2t.Do(bad-middle)",
 	"j2t.Do(bad-end)",
 	"j2t.Do(missing-required)",
+	"j2t.Do(tiny)",
+	"j2t.Do(ends-in-0)",
 	"t2j.Do(cut-middle)",
 	"t2j.Do(cut-end)",
 	"j2p.Do(bad)",
@@ -249,8 +251,19 @@ func newFixture() (*fixture, error) {
 	in["form-body"] = []byte(`msg=formmsg&code=12`)
 	in["thrift-small-missing-required"] = tbin.Bytes(tbin.Struct(tbin.F(1, tbin.Str("only msg"))))
 	in["pbjson-bad"] = []byte(`{"msg":"pb","items":[{"a":1,"b":"x"},{"a":"zz"}],"code":7}`)
+	in["json-tiny"] = []byte(`{}`)
+	in["json-number-ending-in-0"] = []byte(`{"msg":"flat","code":30}`)
+	in["json-top-number"] = []byte(`1230`)
+	// every shared input is the front of a larger allocation (cap > len, as a frame cut out of a receive buffer
+	// is): the bytes behind it belong to the caller too and are part of the checksum
 	for k, v := range in {
-		f.sums[k] = crc32.ChecksumIEEE(v)
+		a := make([]byte, len(v)+24)
+		copy(a, v)
+		for i := len(v); i < len(a); i++ {
+			a[i] = 0xAA
+		}
+		in[k] = a[:len(v):len(a)]
+		f.sums[k] = crc32.ChecksumIEEE(a)
 	}
 	f.j2tc = j2t.NewBinaryConv(conv.Options{})
 	f.t2jc = t2j.NewBinaryConv(conv.Options{})
@@ -263,6 +276,15 @@ func newFixture() (*fixture, error) {
 	add("j2t.Do(bad-middle)", func() ([]byte, error) { return f.j2tc.Do(ctx, f.reqT, in["json-bad-middle"]) })
 	add("j2t.Do(bad-end)", func() ([]byte, error) { return f.j2tc.Do(ctx, f.reqT, in["json-bad-end"]) })
 	add("j2t.Do(missing-required)", func() ([]byte, error) { return f.j2tc.Do(ctx, f.reqT, in["json-missing-required"]) })
+	add("j2t.Do(tiny)", func() ([]byte, error) { return f.j2tc.Do(ctx, f.reqT, in["json-tiny"]) })
+	add("j2t.Do(ends-in-0)", func() ([]byte, error) {
+		a, e1 := f.j2tc.Do(ctx, f.reqT, in["json-number-ending-in-0"])
+		b, e2 := f.j2tc.Do(ctx, f.reqT.Struct().FieldById(5).Type(), in["json-top-number"])
+		if e1 == nil {
+			e1 = e2
+		}
+		return append(append([]byte{}, a...), b...), e1
+	})
 	add("t2j.Do(cut-middle)", func() ([]byte, error) { return f.t2jc.Do(ctx, f.reqT, in["thrift-cut-middle"]) })
 	add("t2j.Do(cut-end)", func() ([]byte, error) { return f.t2jc.Do(ctx, f.reqT, in["thrift-cut-end"]) })
 	add("j2p.Do(bad)", func() ([]byte, error) { return f.j2pc.Do(ctx, f.preqT, in["pbjson-bad"]) })
@@ -571,7 +593,7 @@ func (f *fixture) dumpDescs() string {
 func (f *fixture) inputsIntact() string {
 	var bad []string
 	for k, v := range f.inputs {
-		if crc32.ChecksumIEEE(v) != f.sums[k] {
+		if crc32.ChecksumIEEE(v[:cap(v)]) != f.sums[k] {
 			bad = append(bad, k)
 		}
 	}
